@@ -791,12 +791,42 @@ func runFacts(repo, outdir string) error {
 				return err
 			}
 			src := walP.src(fd.Body)
-			il := strings.Index(src, "w.writeMu.Lock()")
-			if il < 0 || !strings.Contains(src[il:], "w.checkClosed()") {
+			// the lock is (re)taken last by whichever of Lock() / awaitRotationLocked() (which drops and
+			// re-takes it) comes last before the state is acquired; the closed check has to sit between that
+			// point and acquireState() so that both happen in one uninterrupted critical section
+			iacq := strings.Index(src, "w.acquireState()")
+			if iacq < 0 {
+				recheck = false
+				continue
+			}
+			pre := src[:iacq]
+			il := strings.LastIndex(pre, "w.writeMu.Lock()")
+			if ia := strings.LastIndex(pre, "w.awaitRotationLocked()"); ia > il {
+				il = ia
+			}
+			if il < 0 || !strings.Contains(pre[il:], "w.checkClosed()") {
 				recheck = false
 			}
 		}
-		lcc.raw(fmt.Sprintf("/-- StoreLogs and DeleteRange re-check the closed flag after taking the write lock -/\ndef writersRecheckClosedUnderLock : Bool := %v\n\n", recheck))
+		lcc.raw(fmt.Sprintf("/-- StoreLogs and DeleteRange re-check the closed flag after the last point at which they (re)take the write lock (`Lock()` or `awaitRotationLocked()`) and before they acquire the state -/\ndef writersRecheckClosedUnderLock : Bool := %v\n\n", recheck))
+		{
+			// visibility gate of the tail reader: OffsetForFrame refuses idx > w.LastIndex() (the commit index,
+			// published only after flush+fsync) before it touches the offsets slice (published before the flush)
+			off, err := segP.fn("Writer", "OffsetForFrame")
+			if err != nil {
+				return err
+			}
+			osrc := segP.src(off.Body)
+			ig := strings.Index(osrc, "idx > w.LastIndex()")
+			io := strings.Index(osrc, "w.getOffsets()")
+			li, err := segP.fn("Writer", "LastIndex")
+			if err != nil {
+				return err
+			}
+			lsrc := segP.src(li.Body)
+			gated := ig >= 0 && io > ig && strings.Contains(osrc[ig:io], "ErrNotFound") && strings.Contains(lsrc, "atomic.LoadUint64(&w.commitIdx)")
+			lcc.raw(fmt.Sprintf("/-- the tail reader is gated on the commit index: `OffsetForFrame` returns ErrNotFound for `idx > w.LastIndex()` before reading the offsets slice, and `LastIndex` is an atomic load of `commitIdx` -/\ndef readsGatedOnCommitIdx : Bool := %v\n\n", gated))
+		}
 		if err := lcc.finish(outdir); err != nil {
 			return err
 		}
